@@ -240,6 +240,13 @@ func famCached(g *Gen, tier string, shard, nshards int) {
 					nAdds = 1 + g.Intn(2)
 				}
 			}
+			if manyTrees && b > 0 && g.Intn(5) == 0 {
+				// now and then: leaves spread over the whole forest plus some of the right
+				// edge, or all but one leaf of a big tree (the survivor - possibly a cached
+				// leaf - climbs many rows)
+				dels = manyTreeDeletions(g, s.alive, 1+g.Intn(2))
+				nAdds = manyTreeAdds(g)
+			}
 			s.applyBlock(dels, nAdds)
 			if len(s.hist) > 0 && (g.Intn(5) == 0 || (manyTrees && g.Intn(2) == 0)) {
 				k := 1 + g.Intn(min(len(s.hist), 4))
